@@ -204,6 +204,40 @@ func (p *ParametersLiteral) UnmarshalBinary(data []byte) (err error) {
 	return json.Unmarshal(data, p)
 }
 
+// UnmarshalJSON reads a JSON representation on the target ParametersLiteral struct.
+// The distributions Xs and Xe are of an interface type: they are decoded from their
+// map representation, as the scheme parameters literals do.
+func (p *ParametersLiteral) UnmarshalJSON(b []byte) (err error) {
+
+	type literal ParametersLiteral
+
+	aux := struct {
+		Xs map[string]interface{}
+		Xe map[string]interface{}
+		*literal
+	}{literal: (*literal)(p)}
+
+	if err = json.Unmarshal(b, &aux); err != nil {
+		return
+	}
+
+	p.Xs, p.Xe = nil, nil
+
+	if aux.Xs != nil {
+		if p.Xs, err = ring.ParametersFromMap(aux.Xs); err != nil {
+			return
+		}
+	}
+
+	if aux.Xe != nil {
+		if p.Xe, err = ring.ParametersFromMap(aux.Xe); err != nil {
+			return
+		}
+	}
+
+	return
+}
+
 // GetLogN returns the LogN field of the target [ParametersLiteral].
 // The default value DefaultLogN is returned if the field is nil.
 func (p ParametersLiteral) GetLogN() (LogN int) {
